@@ -74,9 +74,11 @@ type faultSrc struct {
 	content.ReadOnlyGraphStorage
 	countdown int
 	hit       bool
+	ops       int // operations seen
 }
 
 func (f *faultSrc) tick() error {
+	f.ops++
 	if f.countdown > 0 {
 		f.countdown--
 		if f.countdown == 0 {
@@ -763,7 +765,13 @@ func runCase(spec *caseSpec) {
 
 	// ---- findRoots through the hook
 	opts := buildOpts(spec, fs)
-	roots, err := oras.VerifFindRoots(ctx, hookSrc, startDesc, opts)
+	// (operations are counted: the fault stream below aims at the root-finding phase)
+	counter := &faultSrc{ReadOnlyGraphStorage: hookSrc}
+	var countedSrc content.ReadOnlyGraphStorage = counter
+	if remoteTruth {
+		countedSrc = faultLister{counter}
+	}
+	roots, err := oras.VerifFindRoots(ctx, countedSrc, startDesc, opts)
 	obs := "ERR"
 	var rootIDs []int
 	if err == nil {
@@ -1004,14 +1012,21 @@ func runCase(spec *caseSpec) {
 	}
 	// ---- the same with one failing source operation: an error may surface; success still means the full closure
 	if spec.Fault > 0 && hangs == 0 {
-		fsrc := &faultSrc{ReadOnlyGraphStorage: hookSrc, countdown: spec.Fault}
+		// two thirds of the faults fall into findRoots (counter.ops operations), the rest into the copy phase
+		k := spec.Fault
+		if counter.ops > 0 && spec.Fault%3 != 0 {
+			k = 1 + spec.Fault%counter.ops
+		} else {
+			k = counter.ops + spec.Fault
+		}
+		fsrc := &faultSrc{ReadOnlyGraphStorage: hookSrc, countdown: k}
 		var src content.ReadOnlyGraphStorage = fsrc
 		if remoteTruth {
 			src = faultLister{fsrc}
 			if reg != nil && spec.Fault%2 == 0 {
-				// alternatively the registry itself answers the Fault-th request with an error (also between two pages)
+				// alternatively the registry itself answers a request with an error (also between two pages)
 				fsrc.countdown = 0
-				reg.arm(spec.Fault)
+				reg.arm(1 + spec.Fault%(counter.ops+2))
 			}
 		}
 		copyGraph("ExtendedCopyGraph with a failing source operation", src, true)
@@ -1277,14 +1292,14 @@ func randomSpec(r *common.Rand, g *dag.Graph) *caseSpec {
 		spec.Start = common.Pick(r, cands)
 	}
 	spec.Limit = common.Pick(r, []int{0, 0, 0, 0, -1, 1, 1, 2, 2, 3, 4, 5, 7})
-	if r.Chance(1, 4) {
-		spec.Fault = 1 + r.Intn(12)
-	}
 	if r.Chance(1, 3) {
 		spec.Prefill = common.Pick(r, []int{10, 30, 60})
 	}
 	spec.StartStyle = r.Intn(3)
 	spec.Filters = randomFilters(r)
+	if r.Chance(1, 3) || (len(spec.Filters) > 0 && r.Chance(1, 3)) {
+		spec.Fault = 1 + r.Intn(60)
+	}
 	spec.PermSeed = r.U64() % 1000000
 	spec.Conc = r.Intn(5)
 	spec.Raw = r.Chance(1, 3)
